@@ -182,7 +182,8 @@ def run(ctx):
     for _ in range(ctx.n(15)):
         case = A.gen_case(ctx.rng, multi_axis=False, general=True)
         if _ % 3 == 2:
-            case = A.gen_case(ctx.rng, k=2, N=ctx.rng.choice([9, 14, 25]), general="residue")
+            case = (A.residue_case(ctx.rng) if _ % 2 == 0 else
+                    A.gen_case(ctx.rng, k=2, N=ctx.rng.choice([9, 14, 25]), general="residue"))
         ctx.hit("general_stream")
         check(ctx, case, reqs, pend)
     for _ in range(ctx.n(6)):       # whole categories missing (propagating policy)
